@@ -1017,7 +1017,18 @@ func Quiet() bool {
 }
 
 // Keys returns the keys of m in a deterministic order (replaces map iteration).
+// Keys returns the keys of a map in the order a rewritten `for k := range m` visits them. Go leaves that order
+// unspecified; inside a simulation it is a permutation drawn from the run's world PRNG (so code that only works
+// for one order is found, and the same seed gives the same order), outside it is sorted.
 func Keys[K comparable, V any](m map[K]V) []K {
+	ks := sortedKeysOf(m)
+	if s := active; s != nil && len(ks) > 1 && !s.aborting && !s.unwind {
+		s.wrng.Shuffle(len(ks), func(i, j int) { ks[i], ks[j] = ks[j], ks[i] })
+	}
+	return ks
+}
+
+func sortedKeysOf[K comparable, V any](m map[K]V) []K {
 	ks := make([]K, 0, len(m))
 	for k := range m {
 		ks = append(ks, k)
